@@ -31,7 +31,7 @@ CHUNK = 200
 RECYCLE_CHUNKS = 5
 BUDGET_S = {"quick": 900, "thorough": 8000}
 
-OPS = ["newP", "newC", "relate", "q_explicit", "q_partial", "q_domainless", "drop"]
+OPS = ["newP", "newC", "relate", "q_explicit", "q_partial", "q_domainless", "q_domainless_partial", "drop"]
 ROLE_OPS = ["newE", "relate_role", "relate_head"]  # a role (CEO of the newest person) as source and as TARGET of a relation
 
 
@@ -98,6 +98,9 @@ def empty_expression_registries():
         g.remove_node(i)
 
 
+kept_queries = []
+
+
 def body(seq, rep, census, touched, related=None, states=None):
     from krrood.entity_query_language.symbol_graph import SymbolGraph
     related = related if related is not None else []
@@ -153,6 +156,17 @@ def body(seq, rep, census, touched, related=None, states=None):
             # everything alive of that type is in the variable's domain, also what only a related object still holds
             touched.update(n for n, w in census if w() is not None and isinstance(w(), _O.VPerson))
             del r
+        elif op == "q_domainless_partial":
+            # one result is taken, the iterator is abandoned; the query OBJECT stays (as a module-level query would):
+            # only what the query has handed out may be kept alive by krrood's registries, not what it never reached
+            q = an(entity(let(_O.VPerson, None)))
+            it = iter(q.evaluate())
+            first = next(it, None)
+            if first is not None:
+                touched.add(first.name)
+            del it, first
+            kept_queries.append(q)
+            del q
         elif op == "drop":
             if live:
                 live.pop(0)
@@ -220,6 +234,7 @@ def run_case_inner(seq, note):
         gc.collect()
         res.transitions += len(seq)
         survivors = [n for n, r in census if r() is not None]
+        del kept_queries[:]
         if survivors:
             # an object asserted to be related to a queried object is reachable from it (its managed fields)
             reach = set(touched)
